@@ -150,6 +150,32 @@ def ejson_agreement(ctx):
             run.check(bool(naive) and all(isinstance(e, ast.Constant) and e.value is None for e in naive) and
                       any(a for a, _ in offs), 'R16', where(repo, payload), d.qualname,
                       'offset None for naive datetimes', 'a naive datetime does not round-trip as naive')
+            # ... and the decoder must decide naive / aware on that same component: the zone *name* is None for perfectly aware
+            # values too (fixed-offset zones of dateutil / pytz have no name), the offset is None for naive values only
+            from sa.paths import Enumerator as _En
+            from sa.pathvals import PathValues as _PV
+            decided_ok, seen_kinds, wrong = True, set(), []
+            for p_ in _En(where=h.qualname).paths(branch.body):
+                pv_ = _PV(p_)
+                if len(pv_.returns) != 1:
+                    continue
+                aware_ret = 'timezone(' in u(pv_.returns[0])
+                gs = {}
+                for t_, pol_ in p_.guards():
+                    t_, pol_ = norm_compare(t_, pol_)
+                    b_ = _me('_x is None', t_)
+                    if b_ is not None:
+                        gs[b_['_x']] = pol_
+                seen_kinds.add(aware_ret)
+                # aware result only where the offset is known to be present, naive result only where it is known to be absent
+                if gs.get(ofs) is not (not aware_ret):
+                    decided_ok = False
+                    wrong.append('%s result under %s' % ('aware' if aware_ret else 'naive',
+                                                       ', '.join('%s is %sNone' % (k_, '' if v_ else 'not ') for k_, v_ in sorted(gs.items())) or 'no test'))
+            run.check(decided_ok and seen_kinds == {True, False}, 'R16', where(repo, branch), h.qualname,
+                      'aware iff the offset component is not None' + ('' if decided_ok else ' (found: %s)' % '; '.join(wrong)),
+                      'the decoder does not decide whether a datetime is zone-aware by the offset component (the zone name is None for '
+                      'aware values of unnamed fixed-offset zones too): such a value resumes as a naive datetime, its offset ignored')
     abstypes.r17_isinstance_order(ctx, [d], floor=1)
     return enc, dec, d, h, et, dt
 
